@@ -212,20 +212,30 @@ def run_shards(module, case_terms, workdir, shard_size=300, max_bytes=250_000, t
     while pending or running:
         while pending and len(running) < JOBS:
             p, start = pending.pop(0)
-            pr = subprocess.Popen(['coqc', '-Q', COQ, 'Concepts', '-w', '-all', p], stdout=subprocess.PIPE,
-                                  stderr=subprocess.PIPE, text=True, cwd=workdir)
+            # output goes to files: a shard with many disagreements prints more than a pipe buffer holds
+            fo, fe = open(p + '.out', 'w'), open(p + '.err', 'w')
+            pr = subprocess.Popen(['coqc', '-Q', COQ, 'Concepts', '-w', '-all', p], stdout=fo, stderr=fe, cwd=workdir)
+            fo.close()
+            fe.close()
             running.append((pr, p, start, time.time()))
         still = []
         for pr, p, start, ts in running:
             rc = pr.poll()
             if rc is None:
                 if time.time() - ts > timeout:
-                    pr.kill()
+                    for other, *_ in running:
+                        other.kill()
                     raise Infra(f'coqc timed out on {p}')
                 still.append((pr, p, start, ts))
                 continue
-            out, err = pr.communicate()
+            with open(p + '.out', errors='replace') as f:
+                out = f.read()
+            with open(p + '.err', errors='replace') as f:
+                err = f.read()
             if rc != 0:
+                for other, *_ in running:
+                    if other.poll() is None:
+                        other.kill()
                 raise Infra(f'coqc failed on {p}: {(out + err)[-3000:]}')
             results.append((start, parse_bad(out)))
         running = still
